@@ -162,6 +162,9 @@ struct EnvHooks<'a, 'b> {
     root: usize,
     st: &'a mut Stats,
     ty: &'static str,
+    /// [lo,hi) of every node and whether the node is a join without tail
+    layout: Vec<(usize, usize)>,
+    plain_join: Vec<bool>,
 }
 
 pub fn check_scalar_node<E: Est<Item = f64>>(
@@ -180,7 +183,15 @@ pub fn check_scalar_node<E: Est<Item = f64>>(
         }
     }
     st.oracle_evals += 1;
-    for (stat, got) in acc.stats_vec() {
+    // every accessor is a function of the state: a second call returns the same bits
+    let first = acc.stats_vec();
+    if let Some((s, a, b)) = stats_identical(&first, &acc.stats_vec()) {
+        return Err(Viol::new(
+            format!("{}:{}:accessor_not_repeatable", E::NAME, s.name()),
+            format!("{} {}::{} returned {} and then {} on the same estimator", where_, E::NAME, s.name(), hex(a), hex(b)),
+        ));
+    }
+    for (stat, got) in first {
         if let Some(v) = ex.exact_value(stat) {
             // central_moment(0)=1, central_moment(1)=0 always; standardized 0/1/2 exact
             let ok = match stat {
@@ -232,6 +243,37 @@ pub fn check_scalar_node<E: Est<Item = f64>>(
 }
 
 impl<'a, 'b, E: Est<Item = f64>> Hooks<E> for EnvHooks<'a, 'b> {
+    fn wants_merge_details(&self) -> bool {
+        true
+    }
+    /// probes on a sample of the merge events: the merge in the other direction, the argument
+    /// merged twice, and the result merged with a clone of itself must all be summaries of the
+    /// corresponding multisets
+    fn merged(&mut self, id: usize, before: &E, arg: &E, _arg_dbg: &str, after: &E) -> Result<(), Viol> {
+        if id % 4 != 1 || !self.plain_join[id] {
+            return Ok(());
+        }
+        let range = self.layout[id];
+        if range.1 - range.0 > 64 || range.1 == range.0 {
+            return Ok(());
+        }
+        let ex = self.exact.get(id, range);
+        // b.merge(a): same multiset
+        let mut rev = arg.clone();
+        rev.absorb(before);
+        check_scalar_node(&rev, &ex, self.st, &format!("join {} merged in the other direction [{}..{})", id, range.0, range.1))
+            .map_err(|v| Viol::new(format!("{}:reverse_merge", v.class), v.detail))?;
+        // (a+b).merge(clone of a+b): every observation twice -> same mean and central moments, n doubled
+        let mut twice = (*ex).clone();
+        twice.n *= 2;
+        let mut dbl = after.clone();
+        let c = after.clone();
+        dbl.absorb(&c);
+        check_scalar_node(&dbl, &twice, self.st, &format!("join {} merged with a clone of itself [{}..{})", id, range.0, range.1))
+            .map_err(|v| Viol::new(format!("{}:self_merge", v.class), v.detail))?;
+        self.st.bump("probe.reverse_and_self_merge");
+        Ok(())
+    }
     fn node_done(&mut self, id: usize, range: (usize, usize), acc: &E) -> Result<(), Viol> {
         let len = range.1 - range.0;
         if len > MAX_NODE_ORACLE && id != self.root {
@@ -714,11 +756,13 @@ impl RScenario {
             RProp::C02 => {
                 let data = tr.scalar();
                 let cache = ExactCache::new(&data, nn);
+                let layout = tree.layout();
+                let plain_join: Vec<bool> = tree.nodes.iter().map(|n| matches!(n, Node::Join { tail, .. } if tail.is_empty())).collect();
                 let mut res: Result<(), Viol> = Ok(());
                 crate::for_moment_types!(T => {
                     if res.is_ok() {
                         res = guarded(T::NAME, || {
-                            let mut h = EnvHooks { exact: &cache, root, st, ty: T::NAME };
+                            let mut h = EnvHooks { exact: &cache, root, st, ty: T::NAME, layout: layout.clone(), plain_join: plain_join.clone() };
                             run_tree::<T, _>(tree, &data, &no_faults, &mut h).map(|_| ())
                         });
                     }
@@ -1199,7 +1243,11 @@ impl RScenario {
         };
         let mut cfg = gen_cfg(&mut rng, n, self.prop);
         if long {
-            cfg.policy = if rng.chance(0.6) { Policy::Length } else { Policy::Balanced };
+            cfg.policy = match rng.below(10) {
+                0..=5 => Policy::Length,
+                6..=7 => Policy::Balanced,
+                _ => Policy::Lopsided,
+            };
             cfg.threads = rng.pick(&[1usize, 2, 3, 4, 8]);
             cfg.min_len = if rng.chance(0.5) { 1 } else { rng.range(1000, 70_000) };
             cfg.max_pieces = 1;
@@ -1218,6 +1266,15 @@ impl RScenario {
         if tree.depth() >= 8 {
             st.bump("probe.tree_depth_ge_8");
         }
+        let injected_panics = tree
+            .nodes
+            .iter()
+            .map(|n| match n {
+                Node::Leaf { pieces } => pieces.iter().filter(|p| p.path == Path::ExtendPanicsThenRetry).count(),
+                Node::Join { tail, .. } => tail.iter().filter(|p| p.path == Path::ExtendPanicsThenRetry).count(),
+            })
+            .sum::<usize>();
+        st.add("fault.iterator_panic_in_extend", injected_panics as u64);
         match cfg.policy {
             Policy::Length => st.bump("policy.length_splitter"),
             Policy::Composition => st.bump("policy.composition"),
